@@ -149,7 +149,9 @@ def r03_2(ctx, run, info):
             bad = (p, f"{total} stores of the offset for one traversed node")
             break
     ctx.check(bad is None, "R03.2", run.where(sl), "every element of the record's node list stores the record's offset exactly once (append to an existing entry, or create the entry)", key_of(run, f"store-once:{bad[1] if bad else ''}"), paths=len(paths), **({"path": bad[0].show(), "why": bad[1]} if bad else {}))
-    skip = [st for st in walk_stmts(sl.body) if isinstance(st, (ast.Continue, ast.Break))]
+    from ..core import own_loop_jumps
+
+    skip = own_loop_jumps(sl.body)
     ctx.check(not skip and isinstance(sl.iter, ast.Name), "R03.2", run.where(sl), "the store loop iterates the whole node list (no filter, no early exit)", key_of(run, f"store-loop-filter:{norm(sl.iter)}"))
     # unstable branch: how the node list is derived from the path column
     defs = [st for st in walk_stmts(loop.body) if isinstance(st, ast.Assign) and norm(st.targets[0]) == lst]
